@@ -35,11 +35,14 @@ pub fn gen(seed: u64) -> MCase {
     let path = rng.below(3) as u8;
     let gate = rng.chance(1, 2);
     let (stored_name, stored_version, msg_path) = if gate { (rng.below(6) as u8, rng.below(11) as u8, if rng.chance(2, 3) { path } else { rng.below(3) as u8 }) } else { (0, path, path) };
-    let np = rng.below(7);
+    // mostly a handful of scattered sequences; sometimes a long consecutive stretch (page boundaries)
+    let long = rng.chance(1, 5);
+    let np = if long { rng.range(9, 26) } else { rng.below(7) };
+    let base = rng.range(1, 40);
     let mut seqs: Vec<u64> = vec![];
     let packets = (0..np)
-        .map(|_| {
-            let mut s = rng.range(1, 60);
+        .map(|i| {
+            let mut s = if long { base + i } else { rng.range(1, 60) };
             while seqs.contains(&s) {
                 s += 1;
             }
@@ -47,7 +50,7 @@ pub fn gen(seed: u64) -> MCase {
             (s, rng.pick(&[1u128, 1000, 999_999_999_999, 10u128.pow(27), u128::MAX]).to_string(), rng.below(4) as u8)
         })
         .collect();
-    let replies = (0..rng.below(3)).map(|i| (1_700_000_000_000_000_000 + i, rng.pick(&[1u128, 5000, u128::MAX]).to_string())).collect();
+    let replies = (0..if long && rng.chance(1, 2) { rng.range(9, 14) } else { rng.below(3) }).map(|i| (1_700_000_000_000_000_000 + i, rng.pick(&[1u128, 5000, u128::MAX]).to_string())).collect();
     MCase { path, stored_name, stored_version, msg_path, packets, replies, abort_at: if rng.chance(1, 4) { Some(rng.range(1, 30) as u16) } else { None }, fill: rng.next_u64(), wrong_prefix_arg: rng.chance(1, 6) }
 }
 
